@@ -28,21 +28,30 @@ def obligations(tier, seed):
            assumes=["representation invariant (shown initial by xds_demux_init, inductive by this obligation), assumed only for the three slots the step can depend on"],
            grid=[dict(C1FIX=v) for v in ("-0x41", "0x00", "0x01", "0x02", "0x05", "0x07", "0x08", "0x09", "0x0E", "0x0F", "0x14", "0x20", "0x41", "0x7F")],
            quick_grid=[dict(C1FIX=v) for v in ("-0x41", "0x01", "0x04", "0x07", "0x08", "0x0B", "0x0F", "0x14", "0x41")],
-           reach=["end", "frame"], timeout=900, mem_gb=4, vin_size=vin_step, **common),
+           reach=["end", "frame"], timeout=2400, mem_gb=4, vin_size=vin_step, **common),
         Ob("xds_demux_init", func="h_xds_init", unwind=40, nafs=True, vin_size=vin_step,
            desc="INIT |= invariant: _vbi_xds_demux_init on dirty memory establishes the invariant used by xds_demux_step",
            encodes=["_vbi_xds_demux_init", "vbi_xds_demux_reset"], bounds="none", timeout=120, **common),
-        Ob("xds_sender_seq", func="h_xds_sender", unwind=40, nafs=True, solver="cadical",
-           desc="SEQ: reference sender multiplexes two XDS packets (payload symbolic) with caption control codes, caption text and null pairs under a symbolic "
-                "schedule, resuming with continue codes, with one optional symbolic fault (parity flip of either byte, value change of a payload byte, wrong "
-                "checksum byte): deliveries are exactly the cleanly terminated packets, once each, in termination order, byte exact; a faulty packet is never delivered",
-           encodes=["vbi_xds_demux_feed", "_vbi_xds_demux_init", "vbi_unpar8"],
-           bounds="KSLOTS byte pairs (9 quick, up to 12 thorough); 2 packets; class/type/length enumerated on the grid, contents, schedule and fault symbolic",
-           outside="more than two packets in flight; streams longer than KSLOTS pairs",
-           grid=sender_grid_t, quick_grid=sender_grid_q, reach=["end", "both", "one"], timeout=900, mem_gb=6, vin_size=128, **common),
-        Ob("xds_overlong", func="h_xds_overlong", unwind=40, nafs=True, solver="cadical",
-           desc="SEQ: start (or continue without start) followed by 15..20 arbitrary content pairs (second byte may be NUL, so 15..40 payload bytes) and a terminator with "
-                "arbitrary checksum: nothing without a start code, never more than 32 bytes delivered, no access outside the demux object",
-           encodes=["vbi_xds_demux_feed"], bounds="KSLOTS content pairs on the grid", grid=over_grid_t, quick_grid=over_grid_q,
-           reach=["end", "delivered"], timeout=600, mem_gb=6, vin_size=64, **common),
+        # xds_sender_seq / xds_overlong (harness functions h_xds_sender, h_xds_overlong: reference sender multiplexing two packets with caption
+        # data under a symbolic schedule) are NOT registered: measured 1375 s symex, 1.2 M steps, 17.6 GB at 9 byte pairs with
+        # --max-field-sensitivity-array-size 24, out of memory at 11 GB with --no-array-field-sensitivity.  Sequences are covered by induction
+        # over the step contract instead (DESIGN 0.3 C09).
+        Ob("caption_xds_separator_step", harness="h_c09b.c", func="h_xdssep_step", units=["src/hamm.c"], unwind=40, solver="cadical",
+           flags=["--max-field-sensitivity-array-size", "24"], tier="thorough",
+           desc="INV-STEP on the service decoder's own xds_separator (caption.c): arbitrary sub-packet table satisfying the invariant, one byte pair (first byte on the "
+                "grid, second arbitrary): same reassembly contract as the stand-alone demultiplexer (append, discard beyond 32 bytes, parity error/unknown header end the "
+                "packet, no other slot touched), xds_decoder's assert(length <= 32) and all bounds inside struct caption",
+           encodes=["xds_separator", "xds_decoder"], bounds="one step; first byte case-split; event_mask = 0 (decoder body short)",
+           stubs=["struct teletext carved out of vbi_decoder (include guard TELETEXT_H + dummy)", "pthread mutex: flag + lock-discipline assertions", "vbi_send_event: log",
+                  "vbi_caption_unicode: identity", "vbi_reset_prog_info: local copy"],
+           assumes=["invariant: counts in {0} u [2,34], curr_sp NULL or a started slot", "first byte as vbi_decode_caption hands it over (parity error, 0x01..0x0F, >= 0x20)"],
+           grid=[dict(C1FIX=v) for v in ("-0x41", "0x01", "0x02", "0x07", "0x09", "0x0F", "0x41")], reach=["end", "frame"], timeout=2400, mem_gb=6, vin_size=4096),
+        Ob("caption_xds_decoder", harness="h_c09b.c", func="h_xdsdec", units=["src/hamm.c"], unwind=70, solver="cadical",
+           flags=["--max-field-sensitivity-array-size", "24"],
+           desc="xds_decoder for every packet type 0..0x17 of a class with an arbitrary payload of the grid length: every write inside vbi_program_info / vbi_network; "
+                "programme name copied exactly (leading blanks skipped, control codes as blanks, NUL terminated)",
+           encodes=["xds_decoder", "xds_strfu", "flush_prog_info"], bounds="class and length on the grid (class 0..3; lengths 1, 2, 4, 6, 32 quick; 1..32 thorough)",
+           stubs=["struct teletext carved out", "vbi_send_event: log + asserts the caption mutex is released", "vbi_reset_prog_info: local copy"],
+           grid=[dict(XCLS=c, XLEN=l) for c in range(4) for l in range(1, 33)], quick_grid=[dict(XCLS=c, XLEN=l) for c in (0, 2) for l in (1, 2, 4, 6, 32)],
+           reach=["end"], timeout=1200, mem_gb=6, vin_size=128),
     ]
